@@ -976,6 +976,48 @@ func sizeFamilies(r *rand.Rand, fam string, n int) []string {
 				ks = append(ks, string([]byte{byte(g >> 16), byte(g >> 8), byte(g), byte(nb << 4)}))
 			}
 		}
+	case "pairs-21", "pairs-28", "pairs-36", "pairs-45", "pairs-55", "pairs-120":
+		// a caterpillar cycling over a PALETTE of P label pairs: P = C(s,2) fills exactly the
+		// popcount-2 slots of a short table of size s (s = 7..10: 21, 28, 36, 45)
+		var P int
+		fmt.Sscanf(fam, "pairs-%d", &P)
+		pairs := [][2]byte{}
+		for a := byte(0); a < 16; a++ {
+			for b := a + 1; b < 16; b++ {
+				pairs = append(pairs, [2]byte{a, b})
+			}
+		}
+		r.Shuffle(len(pairs), func(i, j int) { pairs[i], pairs[j] = pairs[j], pairs[i] })
+		pairs = pairs[:P]
+		k := []byte{}
+		for i := 0; i < n; i++ {
+			p := pairs[i%len(pairs)]
+			ks = append(ks, string(append(append([]byte{}, k...), p[0]<<4|0x1)))
+			k = append(k, p[1]<<4|0x7, 0x55)
+			if len(k) > 12000 {
+				k = k[:0]
+			}
+		}
+	case "distinct-pairs":
+		// a caterpillar whose inner nodes carry pairwise different 2-label bitmaps (up to
+		// 120 distinct pairs of the same popcount), every inner node behind a step
+		pairs := [][2]byte{}
+		for a := byte(0); a < 16; a++ {
+			for b := a + 1; b < 16; b++ {
+				pairs = append(pairs, [2]byte{a, b})
+			}
+		}
+		r.Shuffle(len(pairs), func(i, j int) { pairs[i], pairs[j] = pairs[j], pairs[i] })
+		k := []byte{}
+		for i := 0; i < n; i++ {
+			p := pairs[i%len(pairs)]
+			// the leaf takes label p[0], the spine continues under p[1]; one filler byte = a step
+			ks = append(ks, string(append(append([]byte{}, k...), p[0]<<4|0x1)))
+			k = append(k, p[1]<<4|0x7, 0x55)
+			if len(k) > 12000 {
+				k = k[:0]
+			}
+		}
 	case "random":
 		for i := 0; i < n; i++ {
 			ks = append(ks, randBytes(r, 1+r.Intn(30), nil))
@@ -1006,11 +1048,20 @@ func genSize(t *Tracer, m *Meta, tier string, seed int64) {
 		m.Distinct++
 		t.Emit(e)
 	}
-	sizes := []int{1, 2, 3, 4, 5, 6, 7, 8, 9, 10, 11, 12, 20, 50, 100, 300, 1000, 3000, 10000}
-	if !quick {
-		sizes = append(sizes, 30000, 100000)
+	// a dense sweep of key counts: size anomalies may live in narrow windows of n
+	sizes := []int{}
+	for n := 1; n <= 64; n++ {
+		sizes = append(sizes, n)
 	}
-	fams := []string{"caterpillar-binary", "long-steps", "fanout11", "distinct-bitmaps", "random", "ascii-words", "long-random"}
+	for n := 72; n <= 1024; n += 8 {
+		sizes = append(sizes, n+int(seed)%8)
+	}
+	sizes = append(sizes, 1500, 2000, 3000, 5000, 10000)
+	if !quick {
+		sizes = append(sizes, 20000, 30000, 50000, 100000)
+	}
+	fams := []string{"caterpillar-binary", "long-steps", "fanout11", "distinct-bitmaps", "distinct-pairs", "random", "ascii-words", "long-random",
+		"pairs-21", "pairs-28", "pairs-36", "pairs-45", "pairs-55", "pairs-120"}
 	for _, fam := range fams {
 		for _, n := range sizes {
 			if fam == "long-random" && n > 300 {
@@ -1018,6 +1069,9 @@ func genSize(t *Tracer, m *Meta, tier string, seed int64) {
 			}
 			if fam == "caterpillar-binary" && n > 3000 {
 				continue // key length grows with n: 16 KiB limit
+			}
+			if (fam == "distinct-pairs" || strings.HasPrefix(fam, "pairs-")) && n > 5000 {
+				continue
 			}
 			if fam == "long-steps" && n > 10000 {
 				continue
@@ -1049,7 +1103,10 @@ func genSize(t *Tracer, m *Meta, tier string, seed int64) {
 		nPairs = 300
 	}
 	for i := 0; i < nPairs; i++ {
-		fam := fams[r.Intn(len(fams)-1)]
+		fam := fams[r.Intn(8)]
+		if fam == "long-random" {
+			fam = "random"
+		}
 		n := []int{1, 2, 5, 30, 200, 1500}[r.Intn(6)]
 		ks := r.Int63()
 		plen := []int{1, 2, 3, 7, 8, 100, 1000, 4000, 16000}[r.Intn(9)]
